@@ -395,3 +395,35 @@ def run_check(property_id: str, tier: str, fn, level: str = "other") -> int:
         f"unknown={len(rep.unknowns)}; exit={code}"
     )
     return code
+
+
+_BUILTIN_NAMES = {"np", "numpy", "self", "len", "abs", "float", "int", "range", "enumerate", "zip", "list", "tuple", "sum", "max", "min", "sorted", "True", "False", "None", "similarity_transformation", "print"}
+
+
+def names_of_function(fn) -> set:
+    """Every identifier a function binds or mentions (parameters, locals, loop variables, free names)."""
+    import ast as _ast
+
+    out = {a.arg for a in fn.args.args + fn.args.kwonlyargs + getattr(fn.args, "posonlyargs", [])}
+    for n in _ast.walk(fn):
+        if isinstance(n, _ast.Name):
+            out.add(n.id)
+    return out
+
+
+def require_names(fn, text_or_names, where: str) -> None:
+    """A rule that compares a formula written with the local names of `fn` first makes sure those names still exist:
+    if a local was renamed the rule has lost its anchor (ANALYSIS-ERROR), it has not found a violation."""
+    import ast as _ast
+
+    if isinstance(text_or_names, str):
+        try:
+            wanted = {n.id for n in _ast.walk(_ast.parse(text_or_names, mode="eval")) if isinstance(n, _ast.Name)}
+        except SyntaxError:
+            wanted = set()
+    else:
+        wanted = set(text_or_names)
+    have = names_of_function(fn)
+    missing = sorted(w for w in wanted - _BUILTIN_NAMES if w not in have)
+    if missing:
+        raise AnalysisError(f"{where}: the rule refers to local name(s) {missing} that no longer occur in the function (renamed?): re-anchor the rule")
